@@ -244,7 +244,8 @@ func init() {
 		c.R.Rule("S12: Weights() returns pointers to the layer's own Weight and Bias fields (replacements reach the next Forward), both trainable")
 		c.R.Rule("A4.pre / A1.shape: default initialisation gives tracked parameters of shape [Outputs]; invalid configs and inputs are rejected with an error")
 		e.RunFCChecks()
-		c.R.NotDecide("gradients of W, B, x: compositional (C01, C02, C07); the weight gradient inherits known finding D2 (Broadcast backward averages)")
+		c.R.Rule("gradients of W, B and x: compositional over C01, C02 (UnSqueeze, MatMul, SumAlong, Add) and C07; the C07 obligations of the expansions FC uses are re-run here and carry known finding D2 (parameter gradients divided by the batch size)")
+		RunOps(c, OpFilter{Methods: []string{"Broadcast"}, Keep: func(rule, construct string) bool { return isGradRule(rule) && isBroadcastConstruct(construct) }})
 	}, 10))
 }
 
@@ -382,4 +383,31 @@ func init() {
 		c.R.Assume("gonum's Uniform.Rand returns values in [Min,Max) and Normal.Rand is N(Mu,Sigma); both use a locked global source when Src is nil")
 		c.R.NotDecide("convergence of sample moments / independence (statistical)")
 	}, 50))
+}
+
+func init() {
+	register("C13", "loss gradients equal the analytic derivatives", componentCheck(func(e *engine.OpEngine, c *Ctx) {
+		c.R.Rule("C13.gradient: the real Compute builds a real graph (interface calls dispatched to the real cputensor methods), the real BackPropagate is interpreted over it, and the gradient that reaches the prediction - a tracked leaf, or the intermediate k·q of an upstream tracked operation - must have the normal form 2(p-t)/N (MSE), ((1-t)/(1-p) - t/p)/N (BCE), -(t/p)/N (CE) inside the clipping interval and exactly 0 in the clipped regions (incl. predictions exactly 0 or 1), with the prediction's shape, for symbolic and unit batch/class sizes; interval-finite; the untracked target receives nothing")
+		e.RunLossGradientChecks()
+		c.R.Rule("C13.tolerance: the Eq kernel's absolute tolerance (extracted from the interpreted kernel's branch condition) is strictly below the clipping epsilon 1e-12, so a prediction of exactly 0 or 1 is not tied with a clip bound")
+		e.RunToleranceCheck("cputensor.(*CPUTensor).Eq/tolerance")
+		c.R.NotDecide("predictions exactly at the two clipping bounds (excluded by the quantifier); floating-point rounding")
+	}, 30))
+	register("C15", "activation gradients equal the derivative of the activation, also in a chain", componentCheck(func(e *engine.OpEngine, c *Ctx) {
+		c.R.Rule("C15.gradient: x (tracked leaf) → h = k·x (intermediate) → activation → ·G (arbitrary upstream weighting) → real BackPropagate; x's gradient must be G·k·act'(h): 1|0 (1|m for LeakyRelu with symbolic, >1, negative and default slopes) by the sign of h, a value between them at h=0, the symbolic derivative of the composite expression for Sigmoid/Tanh, p_i(g_i - Σ_j p_j g_j) for Softmax along every dim; finite; input's shape; ranks 0..bound")
+		r := 2
+		if c.Tier == "thorough" {
+			r = 4
+		}
+		e.RunActivationGradientChecks(r)
+		c.R.Rule("C13.tolerance (shared): the equality tolerance that defines a tie at 0 is strictly below 1e-12")
+		e.RunToleranceCheck("cputensor.(*CPUTensor).Eq/tolerance")
+		c.R.NotDecide("|x| up to 700 is represented by the interval [-50,50] for finiteness; rounding")
+	}, 30))
+	register("C11", "a training loop follows gradient descent", componentCheck(func(e *engine.OpEngine, c *Ctx) {
+		c.R.Rule("C11.loop/C11.shape/C11.no-leak: FC→{Sigmoid,Relu}→CE→BackPropagate→SGD.Update→ResetGradContext(true) interpreted for two steps with symbolic widths, batch size symbolic and 1: every update succeeds, weights keep shape [Outputs], and the step-2 update expression equals the step-1 update expression with the weights renamed (nothing - gradients, edges, spent flags, cached tensors - leaks across steps); with the reset omitted the next update must report the missing gradient")
+		c.R.Rule("value of the trajectory w ← w - lr·∂L/∂w: compositional over C01 (walk), C02 (local rules), C07 (expansion), C17 (update); the C07 obligations of the expansions FC uses are re-run here and carry known finding D2")
+		e.RunTrainingLoopChecks()
+		RunOps(c, OpFilter{Methods: []string{"Broadcast"}, Keep: func(rule, construct string) bool { return isGradRule(rule) && isBroadcastConstruct(construct) }})
+	}, 8))
 }
